@@ -33,13 +33,21 @@ CORPUS = lib.VERIF / "harness" / "corpus" / "C13.json"
 
 PRELUDE = """import typing, collections.abc
 from typing import Any, Optional, Union, List, Dict, Tuple, Type, Callable, Literal, Annotated, Final, ClassVar, Sequence, Set, Iterable, Mapping
+from typing import NewType, TypedDict, Protocol, TypeVar
 from typing_extensions import Unpack
 class A: pass
 class B(A): pass
+class filter: pass          # a module-level class that shadows a builtin
+NT = NewType("NT", int)
+class TD(TypedDict):
+    a: int
+class P(Protocol):
+    def m(self) -> int: ...
+T = TypeVar("T")
 """
 
 # class codes shared with the Coq model
-CLASSES = {"int": 1, "str": 1002, "bytes": 3, "float": 4, "A": 5, "B": 6, "object": 7}
+CLASSES = {"int": 1, "str": 1002, "bytes": 3, "float": 4, "A": 5, "B": 6, "object": 7, "filter": 9, "NT": 30, "TD": 31, "P": 32, "T": 33}
 GENERICS = {  # code -> (arity, spellings)
     20: (1, ["list", "List"]),
     22: (1, ["set", "Set"]),
@@ -48,7 +56,7 @@ GENERICS = {  # code -> (arity, spellings)
     1001: (2, ["dict", "Dict"]),
     26: (2, ["Mapping"]),
 }
-CODE_OF_TYPE = {"int": 1, "str": 1002, "bytes": 3, "float": 4, "A": 5, "B": 6, "object": 7, "list": 20, "set": 22, "Sequence": 24,
+CODE_OF_TYPE = {"filter": 9, "P": 32, "int": 1, "str": 1002, "bytes": 3, "float": 4, "A": 5, "B": 6, "object": 7, "list": 20, "set": 22, "Sequence": 24,
                 "Iterable": 25, "dict": 1001, "Mapping": 26, "tuple": 1000, "type": 8}
 LITS = {0: "0", 1: "1", 2: "2", -1: "-1", 10: '"a"', 11: '"b"', 20: "True", 30: 'b"x"'}
 LIT_OBJ = {0: 0, 1: 1, 2: 2, -1: -1, 10: "a", 11: "b", 20: True, 30: b"x"}
@@ -324,7 +332,20 @@ def encode_value(v):
 
     def cls_code(t):
         n = getattr(t, "__name__", str(t))
+        if n == "filter" and getattr(t, "__module__", "") == "builtins":
+            return 990  # the builtin, not the module's own class
         return CODE_OF_TYPE.get(n)
+
+    from pyanalyze.value import NewTypeValue, TypedDictValue, TypeVarValue
+
+    if isinstance(v, NewTypeValue):
+        return ("typed", 30) if v.name == "NT" else ("other", "newtype:" + v.name)
+    if isinstance(v, TypedDictValue):
+        if list(v.items) == ["a"] and encode_value(v.items["a"].typ) == ("typed", 1) and v.items["a"].required:
+            return ("typed", 31)
+        return ("other", "typeddict:" + str(v)[:50])
+    if isinstance(v, TypeVarValue):
+        return ("typed", 33) if getattr(v.typevar, "__name__", "") == "T" and not v.is_paramspec else ("other", "typevar:" + str(v)[:40])
 
     if isinstance(v, AnyValue):
         # Any[error] is what an annotation that was reported as invalid evaluates to
@@ -423,7 +444,7 @@ def impl_routes(exprs_src):
         def show_error(self, message, error_code=None, node=None):
             self.errors.append(message)
 
-    ns = {}
+    ns = {"__name__": "c13_prelude"}  # otherwise classes defined by exec() claim to live in `builtins`
     exec(PRELUDE, ns)
     out = []
 
@@ -718,6 +739,14 @@ def load_corpus():
     return []
 
 
+def load_corpus_headers():
+    if CORPUS.exists():
+        d = json.loads(CORPUS.read_text())
+        return [([None if p is None else (p[0], p[1], bool(p[2]), None if p[3] is None else norm_expr(p[3])) for p in ps], None if ret is None else norm_expr(ret))
+                for ps, ret in d.get("headers", [])]
+    return []
+
+
 def jsonable(x):
     if isinstance(x, (tuple, list)):
         return [jsonable(y) for y in x]
@@ -737,6 +766,10 @@ def run(tier: str, replay: str | None = None):
         broken_translation = str(ex)
         gen = None
     model_ok = False
+    if gen is None:
+        # keep the last good Gen/Annot.v so that the model can still attribute known findings
+        ok, _ = lib.coq_make(["theories/Annot/DefSig.vo"])
+        model_ok = ok
     if gen is not None:
         proof = lib.prove(PROP, gen, thorough=(tier == "thorough"))
         model_ok = not any("build failed" in b for b in proof.broken)
@@ -768,8 +801,9 @@ def run(tier: str, replay: str | None = None):
         hr = random.Random(lib.seed() * 17 + 3)
         want = 160 if quick else 1500
         pre_rendered = []
+        pending = load_corpus_headers()
         while len(headers) < want:
-            h = gen_header(rng)
+            h = pending.pop(0) if pending else gen_header(rng)
             hs = render_header(h, hr)
             try:  # the def statement must execute: typing rejects some nestings (Final inside Tuple[...], ...)
                 with warnings.catch_warnings():
